@@ -59,3 +59,29 @@ def getitem(ndim, pattern):
             print('REPLAY: VIOLATION-CONFIRMED')
             return
     print('REPLAY: not reproduced')
+
+
+def interp_grid():
+    """numpy.interp on a function array against numpy.interp on its values: every x of a grid that contains the knots themselves,
+    points between, and points outside, for left/right given or not (BOUNDED native enumeration)."""
+    import json, itertools, numpy
+    from nutils import function, evaluable
+    cases, failures = 0, []
+    x = function.Argument('x', (), float)
+    for xp, fp in (([0., 1., 2.], [10., 20., 15.]), ([-1., 3.], [2., -2.]), ([0., .5, .75, 4.], [1., 1., 3., 0.]), ([2.], [7.])):
+        grid = sorted(set(xp) | {v + d for v in xp for d in (-.25, .25)} | {min(xp) - 2, max(xp) + 2})
+        for left, right in itertools.product((None, -5.), (None, 99.)):
+            f = numpy.interp(x, xp, fp, left=left, right=right)
+            ev = evaluable.compile(f.as_evaluable_array) if hasattr(evaluable, 'compile') else None
+            for xv in grid:
+                cases += 1
+                got = float(function.eval(f, arguments=dict(x=numpy.array(xv)))) if hasattr(function, 'eval') else float(f.eval(x=numpy.array(xv)))
+                want = float(numpy.interp(xv, xp, fp, left=left, right=right))
+                if not abs(got - want) <= 1e-12 * (1 + abs(want)):
+                    failures.append(dict(clause='interp-equals-numpy' if len(xp) > 1 else 'interp-single-knot-equals-numpy', xp=xp, fp=fp, left=left, right=right, x=xv, got=got, want=want))
+    print('BOUNDED-RESULT ' + json.dumps(dict(cases=cases, failures=failures[:10])))
+    if failures:
+        print('numpy.interp(x, %(xp)r, %(fp)r, left=%(left)r, right=%(right)r) at x = %(x)r gives %(got)r, NumPy gives %(want)r' % failures[0])
+        print('REPLAY: VIOLATION-CONFIRMED interp on a function array differs from NumPy')
+    else:
+        print('REPLAY: not reproduced (%d cases)' % cases)
